@@ -36,8 +36,17 @@ PROPERTIES = {
             ("contracts.dart", "AffineTransform_from_affine_map"),
             ("contracts.dart", "AffineTransform_from_affine_map_nonlinear"),
             ("contracts.dart", "AffineTransform_to_affine_map"),
+            ("contracts.dart", "AccessPattern_canonicalize"),
+            ("contracts.dart", "AccessPattern_inner_dims"),
+            ("contracts.stream", "StridePattern_canonicalize"),
+            ("contracts.stream", "pack_bitlist_contract"),
         ],
-        trusted_base=[],
+        bounded=[
+            dict(module="contracts.bounded_c19", fn="canonicalize_affine_exprs", function="snaxc.util.canonicalize_affine.canonicalize_map (random expressions; stands in until the ADT proof covers it)"),
+            dict(module="contracts.bounded_c19", fn="attr_print_parse", function="StridePattern / StreamerConfigurationAttr print o parse (xDSL text parser)"),
+        ],
+        trusted_base=["paper lemma: coalesces_stream(old,new) => identical address sequence (contracts/specs.py)",
+                      "arith op denotations in pyvc/stubs_src/xdsl_dialects_arith.py (shli/ori on fixed-width words)"],
     ),
     "C10": dict(
         contracts=[
